@@ -21,7 +21,7 @@ CUT = 1 << 20
 def describe():
     return {
         "functions": ["qualtrim.pyx:quality_trim_index", "qualtrim.pyx:nextseq_trim_index",
-                      "modifiers.py:QualityTrimmer.__call__", "modifiers.py:NextseqQualityTrimmer.__call__", "cli.py:parse_cutoffs"],
+                      "modifiers.py:QualityTrimmer.__call__", "modifiers.py:NextseqQualityTrimmer.__call__", "cli.py:parse_cutoffs", "cli.py:make_quality_trimmers"],
         "bounds": {"quick": {"read_length": "0..9", "quality_chars": "33..126 (base 33) / 64..126 (base 64)", "cutoffs": "any int in [-2^20, 2^20]", "bases": "A,C,G,T,N,g"},
                    "thorough": {"read_length": "0..12", "quality_chars": "33..126", "cutoffs": "any int in [-2^20, 2^20]", "bases": "A,C,G,T,N,g"}},
         "outside_bounds": ["reads longer than the stated length", "quality characters outside 33..126 (non-printable / non-ASCII: the kernel raises ValueError for non-1-byte strings)",
@@ -307,9 +307,43 @@ def run_parse(J):
                     elif J.cex is None:
                         J.violated += 1
                         J.cex = {"kind": "parse", "text": txt, "what": "parse_cutoffs(%r) = %r, documented %r" % (txt, got, want)}
+        # make_quality_trimmers (executed from source, concrete option texts): which trimmers are built for -q / -Q
+        mk = it.getattr(cli, "make_quality_trimmers")
+
+        def want_pair(txt):
+            parts = [int(x) for x in txt.split(",")]
+            return (0, parts[0]) if len(parts) == 1 else (parts[0], parts[1])
+
+        def same(tr, txt, base):
+            """the trimmer built for option text txt behaves as the documented cut-off pair (absent = trims nothing)"""
+            w = want_pair(txt)
+            if tr is None:
+                return w == (0, 0)
+            return (tr.cutoff_front, tr.cutoff_back, tr.base) == (w[0], w[1], base)
+        texts = ["5", "0", "5,0", "0,5", "6,7", "0,0", "20,0", "0,20"]
+        for base in (33, 64):
+            for q1 in texts:
+                got = it.call_value(mk, [q1, None, base, False], {})
+                J.obligations += 1
+                tr = got[0] if got else None
+                if len(got) <= 1 and same(tr, q1, base):
+                    J.discharged += 1
+                elif J.cex is None:
+                    J.violated += 1
+                    J.cex = {"kind": "make_qt", "q1": q1, "q2": None, "base": base, "paired": False, "what": "make_quality_trimmers(%r) does not build the trimmer for the documented cut-off pair" % (q1,)}
+                for q2 in [None] + texts:
+                    got = it.call_value(mk, [q1, q2, base, True], {})
+                    J.obligations += 1
+                    pair = got[0] if got else (None, None)
+                    ok = len(got) <= 1 and same(pair[0], q1, base) and same(pair[1], q1 if q2 is None else q2, base)
+                    if ok:
+                        J.discharged += 1
+                    elif J.cex is None:
+                        J.violated += 1
+                        J.cex = {"kind": "make_qt", "q1": q1, "q2": q2, "base": base, "paired": True, "what": "make_quality_trimmers(%r, %r, paired) does not build the trimmers for the documented cut-off pairs (-q applies to R2 unless -Q is given)" % (q1, q2)}
         J.vacuity = True
         J.nontrivial += 1
-        J.sample = {"fn": "parse_cutoffs", "shapes": ["INT", "INT,INT"]}
+        J.sample = {"fn": "parse_cutoffs / make_quality_trimmers", "shapes": ["INT", "INT,INT"], "option texts": texts}
     return run_paths(J, body)
 
 
@@ -408,6 +442,23 @@ def replay(cex):
         e2 = brute_suffix(q, cex["cutoff_back"])
         bad2 = out2.sequence != cex["sequence"][:e2] or out2.qualities != cex["qualities"][:e2] or nt.trimmed_bases != cex["trimmed_before"] + len(rec) - e2
         return bad or bad2, "QualityTrimmer -> %r (trimmed_bases %r), Nextseq -> %r (trimmed_bases %r)" % (out.sequence, qt.trimmed_bases, out2.sequence, nt.trimmed_bases)
+    if k == "make_qt":
+        import cutadapt.cli as cli
+
+        def want_pair(txt):
+            parts = [int(x) for x in txt.split(",")]
+            return (0, parts[0]) if len(parts) == 1 else (parts[0], parts[1])
+
+        def same(tr, txt):
+            w = want_pair(txt)
+            return w == (0, 0) if tr is None else (tr.cutoff_front, tr.cutoff_back, tr.base) == (w[0], w[1], cex["base"])
+        got = list(cli.make_quality_trimmers(cex["q1"], cex["q2"], cex["base"], cex["paired"]))
+        if cex["paired"]:
+            pair = got[0] if got else (None, None)
+            ok = len(got) <= 1 and same(pair[0], cex["q1"]) and same(pair[1], cex["q1"] if cex["q2"] is None else cex["q2"])
+        else:
+            ok = len(got) <= 1 and same(got[0] if got else None, cex["q1"])
+        return not ok, "make_quality_trimmers(%r, %r, %d, paired=%s) -> %r" % (cex["q1"], cex["q2"], cex["base"], cex["paired"], got)
     if k == "parse":
         import cutadapt.cli as cli
         txt = cex["text"]
